@@ -31,3 +31,13 @@ package batching
 //@   property C05 C06
 // (every property that relies on 'the acknowledgement a request receives is that of its own log' takes the non-sharing clause)
 //@   alsofor C02 C07 C10 C11 C16
+
+// C06: the callback queued with an item is the acknowledgement of a write. It runs from one place only: the Terminated()
+// method of the batch that carried the item, which the job runner calls once the batch is persisted (job.Job.Terminated
+// requires jobDone, see internal/engine/utils/job/contracts_verif.go). Any other function of this package that invokes
+// the callback of a queued item -- one added later included: the whole package is swept -- acknowledges a write that
+// may never be persisted.
+//@ spec AckFn()
+//@   requires outside batcherJob[T]).Terminated: false // C06
+//@   modifies chan
+//@ fieldspec batching.pending.callback AckFn
